@@ -208,3 +208,48 @@ package age
 //@   ensures#mac err == nil ==> bytes(hdr.MAC) == hmac256(sub(hkdfstream(bytes(fileKey), "", "header"), 0, 32), hdrbytes(hdr))       [C01 C03 C05]
 //@   ensures#writer err == nil ==> typeis(wc, "*filippo.io/age/internal/stream.Writer") && cast(wc, "filippo.io/age/internal/stream.Writer").dst == dst && cast(wc, "filippo.io/age/internal/stream.Writer").a.$key == sub(hkdfstream(bytes(fileKey), bytes(nonce), "payload"), 0, 32) && len(cast(wc, "filippo.io/age/internal/stream.Writer").unwritten) == 0 && cast(wc, "filippo.io/age/internal/stream.Writer").err == nil   [C01 C05 C06 C13]
 //@   ensures#fresh err == nil ==> bytes(fileKey) == csprng(old($draws), 16) && bytes(nonce) == csprng($draws - 1, 16) && $draws - 1 > old($draws)   [C06]
+
+//@ func newX25519RecipientFromPoint(publicKey) (r, err)
+//@   ensures#len err == nil <==> len(publicKey) == 32                                                                   [C09 C14]
+//@   ensures#val err == nil ==> r != nil && len(r.theirPublicKey) == 32 && bytes(r.theirPublicKey) == old(bytes(publicKey))   [C09]
+//@   ensures#nil err != nil ==> r == nil
+//@   fresh r when err == nil
+//@   modifies nothing
+
+//@ func ParseX25519Recipient(s) (r, err)
+//@   call bech32.Decode#1 requires arg0 == s                                                                            [C09]
+//@   ensures#canon err == nil ==> r != nil && len(r.theirPublicKey) == 32 && hasprefix(s, "age") && at(s, 3) == 49 && (forall j in 0..len(s) :: 33 <= at(s, j) && at(s, j) <= 126) && (forall j in 4..len(s) :: at(s, j) != 49)   [C09 C17]
+//@   ensures#nil err != nil ==> r == nil                                                                                [C09 C14]
+
+//@ func (*X25519Recipient).String(r) (s)
+//@   call bech32.Encode#1 requires arg0 == "age" && same(arg1, r.theirPublicKey)                                        [C09]
+//@   ensures#frame r.theirPublicKey == old(r.theirPublicKey)                                                            [C20]
+
+//@ func newX25519IdentityFromScalar(secretKey) (i, err)
+//@   call X25519#1 requires bytes(arg1) == basepoint()                                                                  [C01 C05]
+//@   ensures#len err == nil <==> len(secretKey) == 32                                                                   [C09 C14]
+//@   ensures#val err == nil ==> i != nil && len(i.secretKey) == 32 && bytes(i.secretKey) == old(bytes(secretKey))       [C09]
+//@   ensures#pub (err == nil && x25519ok(old(bytes(secretKey)), basepoint())) ==> bytes(i.ourPublicKey) == x25519(old(bytes(secretKey)), basepoint()) && len(i.ourPublicKey) == 32   [C01 C05]
+//@   ensures#nil err != nil ==> i == nil
+//@   fresh i when err == nil
+//@   modifies nothing
+
+//@ func ParseX25519Identity(s) (i, err)
+//@   call bech32.Decode#1 requires arg0 == s                                                                            [C09]
+//@   ensures#canon err == nil ==> i != nil && len(i.secretKey) == 32 && hasprefix(s, "AGE-SECRET-KEY-") && at(s, 15) == 49 && (forall j in 0..len(s) :: 33 <= at(s, j) && at(s, j) <= 126)   [C09 C18]
+//@   ensures#nil err != nil ==> i == nil                                                                                [C09 C14 C18]
+
+//@ func (*X25519Identity).String(i) (s)
+//@   call bech32.Encode#1 requires arg0 == "AGE-SECRET-KEY-" && same(arg1, i.secretKey)                                 [C09]
+//@   ensures#frame i.secretKey == old(i.secretKey) && i.ourPublicKey == old(i.ourPublicKey)                             [C20]
+
+//@ func (*X25519Identity).Recipient(i) (r)
+//@   ensures#key r != nil && same(r.theirPublicKey, i.ourPublicKey)                                                     [C01]
+//@   ensures#frame i.secretKey == old(i.secretKey) && i.ourPublicKey == old(i.ourPublicKey)                             [C20]
+//@   fresh r
+//@   modifies nothing
+
+//@ func GenerateX25519Identity() (i, err)
+//@   call rand.Read#1 requires len(arg0) == 32                                                                          [C06]
+//@   call newX25519IdentityFromScalar#1 requires bytes(arg0) == csprng(old($draws), 32)                                 [C06]
+//@   ensures#draws $draws == old($draws) + 1                                                                            [C06]
